@@ -328,7 +328,7 @@ func c10Run(c *mc.Ctx) {
 						ss = append(ss, secs[i])
 					}
 				}
-				for _, total := range []uint32{0, 13, 100, 0x3fffffff, 0xffffffff} {
+				for _, total := range []uint32{0, 13, 100, 0x3fffffff, 0x40000000, 0x7fffffff, 0x80000000, 0xfffffffb, 0xffffffff} {
 					f := ref.TTHBuildRaw(0x0102, -2, 4, nil, ss, total, -1)
 					f = append(f, 0xAB, 0xCD) // payload bytes follow the header
 					c.Distinct(f)
@@ -378,7 +378,7 @@ func c10Run(c *mc.Ctx) {
 		c10One(c, f, c10Case{Desc: fmt.Sprintf("%d transform ids", len(tr))})
 	}
 	c.Sample("sections", c10Case{Hex: hex.EncodeToString(ref.TTHBuildRaw(0x0102, -2, 4, nil, []ref.TTHSection{secs[5], secs[7], secs[0]}, 100, -1)), Desc: "acl, padding byte, string KV"})
-	c.Done("all sequences of <= 3 sections over 9 section variants (incl. every well-known transport key) x 5 total-length values, bytes- and stream-backed, with every truncation and byte perturbation of each valid frame")
+	c.Done("all sequences of <= 3 sections over 9 section variants (incl. every well-known transport key) x 9 total-length values, bytes- and stream-backed, with every truncation and byte perturbation of each valid frame")
 }
 
 func init() {
